@@ -150,6 +150,7 @@ func (treediff *TreeDiff) Configure(facts map[string]interface{}) error {
 func (treediff *TreeDiff) Initialize(repository *git.Repository) error {
 	treediff.l = core.NewLogger()
 	treediff.previousTree = nil
+	treediff.previousCommit = plumbing.ZeroHash
 	treediff.repository = repository
 	if treediff.Languages == nil {
 		treediff.Languages = map[string]bool{}
